@@ -24,6 +24,7 @@ import (
 // suppressed => the response is emitted.
 
 var wireCodes = []codes.Code{codes.Content, codes.Changed, codes.Code(0x40) /*2.00*/, codes.Code(0x5f) /*2.31*/, codes.BadRequest, codes.NotFound, codes.Code(0x88) /*4.08*/, codes.Code(0x9d) /*4.29*/, codes.InternalServerError, codes.Code(0xa6) /*5.06*/, codes.Code(0xbf) /*5.31*/}
+
 // every request method: GET, POST, PUT, DELETE, FETCH, PATCH, iPATCH
 var wireMethods = []codes.Code{codes.GET, codes.POST, codes.PUT, codes.DELETE, codes.Code(5), codes.Code(6), codes.Code(7)}
 var wireValues = []uint32{0, 2, 8, 16, 10, 18, 24, 26, 1, 4, 32, 127}
